@@ -8,6 +8,7 @@
 // result: one block per state (initial state first), separated by blanks:
 //         <op result>;<size>;<to_string>;<count>;<any><none><all>;<to_ulong>;<fwd>;<rev>;<back>
 #include <stdexcept>
+#include <bitset>
 #include <string>
 #include <vector>
 #include "case_io.hpp"
@@ -97,6 +98,44 @@ std::string observers(DynamicBitset& a)
    return s + ";" + fwd + ";" + rev + ";" + back;
 }
 
+// std::bitset<N> needs its size at compile time: the sizes the generator uses
+template<size_t N> std::bitset<N> toBitset(const std::vector<bool>& bv)
+{
+   std::bitset<N> r;
+   for (size_t i = 0; i < N && i < bv.size(); ++i) r[i] = bv[i];
+   return r;
+}
+
+template<size_t N> void fromBitset(DynamicBitset& a, const std::vector<bool>& bv, bool construct)
+{
+   const std::bitset<N> src = toBitset<N>(bv);
+   if (construct) a = DynamicBitset(src); else a = src;
+}
+
+// returns false when the size is not among the instantiated ones
+bool assignBitset(DynamicBitset& a, const std::vector<bool>& bv, bool construct)
+{
+   switch (bv.size())
+   {
+   case 1: fromBitset<1>(a, bv, construct); return true;
+   case 2: fromBitset<2>(a, bv, construct); return true;
+   case 3: fromBitset<3>(a, bv, construct); return true;
+   case 4: fromBitset<4>(a, bv, construct); return true;
+   case 5: fromBitset<5>(a, bv, construct); return true;
+   case 6: fromBitset<6>(a, bv, construct); return true;
+   case 7: fromBitset<7>(a, bv, construct); return true;
+   case 8: fromBitset<8>(a, bv, construct); return true;
+   case 9: fromBitset<9>(a, bv, construct); return true;
+   case 10: fromBitset<10>(a, bv, construct); return true;
+   case 16: fromBitset<16>(a, bv, construct); return true;
+   case 63: fromBitset<63>(a, bv, construct); return true;
+   case 64: fromBitset<64>(a, bv, construct); return true;
+   case 65: fromBitset<65>(a, bv, construct); return true;
+   case 100: fromBitset<100>(a, bv, construct); return true;
+   default: return false;
+   }
+}
+
 std::string run_case(const std::vector<std::string>& w)
 {
    if (w.size() < 4) return "unsupported";
@@ -125,6 +164,11 @@ std::string run_case(const std::vector<std::string>& w)
          else if (op == "flipall") a.flip();
          else if (op == "resize") a.resize(p, v);
          else if (op == "assign") a = bv;
+         else if (op == "assignmv") { std::vector<bool> tmp(bv); a = std::move(tmp); }
+         else if (op == "assigndb") a = b;
+         else if (op == "ctormv") { std::vector<bool> tmp(bv); a = DynamicBitset(std::move(tmp)); }
+         else if (op == "assignbs") { if (!assignBitset(a, bv, false)) return "unsupported"; }
+         else if (op == "ctorbs") { if (!assignBitset(a, bv, true)) return "unsupported"; }
          else if (op == "eq") r = (a == b) ? "1" : "0";
          else if (op == "anda") a &= b;
          else if (op == "ora") a |= b;
